@@ -1,5 +1,98 @@
+import BlockCiphers.Proofs.AesFixslice
+import BlockCiphers.Proofs.AesNiBytes
+import BlockCiphers.Proofs.Serpent
 /-
-C03 — theorem file (property theorems only).  Filled in as the models it needs are merged; see DESIGN §7 C03.
+C03 — cipher output is independent of backend, cfg flags and cargo features
+GENERATED statement file (tools/gen_thm.py): every theorem below restates, verbatim, a theorem of a Proofs/ module
+and is proved by applying it.  ONLY property theorems and non-vacuity examples live in Thm/.
+AES: the four software backends agree with each other (soft_backends_agree_N) and, like the AES-NI model (encryptN_bytes), equal FIPS-197;
+Serpent: unrolled = looped.  Kuznyechik backends: pairwise by correspondence only until its model is merged.  Features: no cfg(feature) occurs
+inside any enc/dec/new path except zeroize in Drop (Gen.drops) — checked by running every configuration on the same lines.
 -/
-namespace BC.Thm.C03
-end BC.Thm.C03
+
+namespace BC.AesSoft
+open BC BC.Spec.Aes
+/-- C03: the software backends agree (fixslice64 normal is the reference) -/
+theorem C03.soft_backends_agree_128 (kb : Bytes) (h : kb.length = 16) (x : BitVec 128) :
+    AesFs64.single (AesFs64.aes128_encrypt_compact (AesFs64.rkFn (AesFs64.aes128_key_schedule_compact (packBE 16 kb)))) x = AesFs64.single (AesFs64.aes128_encrypt (AesFs64.rkFn (AesFs64.aes128_key_schedule (packBE 16 kb)))) x ∧ AesFs64.single (AesFs64.aes128_decrypt_compact (AesFs64.rkFn (AesFs64.aes128_key_schedule_compact (packBE 16 kb)))) x = AesFs64.single (AesFs64.aes128_decrypt (AesFs64.rkFn (AesFs64.aes128_key_schedule (packBE 16 kb)))) x ∧
+    AesFs32.single (AesFs32.aes128_encrypt (AesFs32.rkFn (AesFs32.aes128_key_schedule (packBE 16 kb)))) x = AesFs64.single (AesFs64.aes128_encrypt (AesFs64.rkFn (AesFs64.aes128_key_schedule (packBE 16 kb)))) x ∧ AesFs32.single (AesFs32.aes128_decrypt (AesFs32.rkFn (AesFs32.aes128_key_schedule (packBE 16 kb)))) x = AesFs64.single (AesFs64.aes128_decrypt (AesFs64.rkFn (AesFs64.aes128_key_schedule (packBE 16 kb)))) x ∧
+    AesFs32.single (AesFs32.aes128_encrypt_compact (AesFs32.rkFn (AesFs32.aes128_key_schedule_compact (packBE 16 kb)))) x = AesFs64.single (AesFs64.aes128_encrypt (AesFs64.rkFn (AesFs64.aes128_key_schedule (packBE 16 kb)))) x ∧ AesFs32.single (AesFs32.aes128_decrypt_compact (AesFs32.rkFn (AesFs32.aes128_key_schedule_compact (packBE 16 kb)))) x = AesFs64.single (AesFs64.aes128_decrypt (AesFs64.rkFn (AesFs64.aes128_key_schedule (packBE 16 kb)))) x :=
+  _root_.BC.AesSoft.soft_backends_agree_128 kb h x
+end BC.AesSoft
+
+namespace BC.AesSoft
+open BC BC.Spec.Aes
+/-- C03: the software backends agree (fixslice64 normal is the reference) -/
+theorem C03.soft_backends_agree_192 (kb : Bytes) (h : kb.length = 24) (x : BitVec 128) :
+    AesFs64.single (AesFs64.aes192_encrypt_compact (AesFs64.rkFn (AesFs64.aes192_key_schedule_compact (packBE 24 kb)))) x = AesFs64.single (AesFs64.aes192_encrypt (AesFs64.rkFn (AesFs64.aes192_key_schedule (packBE 24 kb)))) x ∧ AesFs64.single (AesFs64.aes192_decrypt_compact (AesFs64.rkFn (AesFs64.aes192_key_schedule_compact (packBE 24 kb)))) x = AesFs64.single (AesFs64.aes192_decrypt (AesFs64.rkFn (AesFs64.aes192_key_schedule (packBE 24 kb)))) x ∧
+    AesFs32.single (AesFs32.aes192_encrypt (AesFs32.rkFn (AesFs32.aes192_key_schedule (packBE 24 kb)))) x = AesFs64.single (AesFs64.aes192_encrypt (AesFs64.rkFn (AesFs64.aes192_key_schedule (packBE 24 kb)))) x ∧ AesFs32.single (AesFs32.aes192_decrypt (AesFs32.rkFn (AesFs32.aes192_key_schedule (packBE 24 kb)))) x = AesFs64.single (AesFs64.aes192_decrypt (AesFs64.rkFn (AesFs64.aes192_key_schedule (packBE 24 kb)))) x ∧
+    AesFs32.single (AesFs32.aes192_encrypt_compact (AesFs32.rkFn (AesFs32.aes192_key_schedule_compact (packBE 24 kb)))) x = AesFs64.single (AesFs64.aes192_encrypt (AesFs64.rkFn (AesFs64.aes192_key_schedule (packBE 24 kb)))) x ∧ AesFs32.single (AesFs32.aes192_decrypt_compact (AesFs32.rkFn (AesFs32.aes192_key_schedule_compact (packBE 24 kb)))) x = AesFs64.single (AesFs64.aes192_decrypt (AesFs64.rkFn (AesFs64.aes192_key_schedule (packBE 24 kb)))) x :=
+  _root_.BC.AesSoft.soft_backends_agree_192 kb h x
+end BC.AesSoft
+
+namespace BC.AesSoft
+open BC BC.Spec.Aes
+/-- C03: the software backends agree (fixslice64 normal is the reference) -/
+theorem C03.soft_backends_agree_256 (kb : Bytes) (h : kb.length = 32) (x : BitVec 128) :
+    AesFs64.single (AesFs64.aes256_encrypt_compact (AesFs64.rkFn (AesFs64.aes256_key_schedule_compact (packBE 32 kb)))) x = AesFs64.single (AesFs64.aes256_encrypt (AesFs64.rkFn (AesFs64.aes256_key_schedule (packBE 32 kb)))) x ∧ AesFs64.single (AesFs64.aes256_decrypt_compact (AesFs64.rkFn (AesFs64.aes256_key_schedule_compact (packBE 32 kb)))) x = AesFs64.single (AesFs64.aes256_decrypt (AesFs64.rkFn (AesFs64.aes256_key_schedule (packBE 32 kb)))) x ∧
+    AesFs32.single (AesFs32.aes256_encrypt (AesFs32.rkFn (AesFs32.aes256_key_schedule (packBE 32 kb)))) x = AesFs64.single (AesFs64.aes256_encrypt (AesFs64.rkFn (AesFs64.aes256_key_schedule (packBE 32 kb)))) x ∧ AesFs32.single (AesFs32.aes256_decrypt (AesFs32.rkFn (AesFs32.aes256_key_schedule (packBE 32 kb)))) x = AesFs64.single (AesFs64.aes256_decrypt (AesFs64.rkFn (AesFs64.aes256_key_schedule (packBE 32 kb)))) x ∧
+    AesFs32.single (AesFs32.aes256_encrypt_compact (AesFs32.rkFn (AesFs32.aes256_key_schedule_compact (packBE 32 kb)))) x = AesFs64.single (AesFs64.aes256_encrypt (AesFs64.rkFn (AesFs64.aes256_key_schedule (packBE 32 kb)))) x ∧ AesFs32.single (AesFs32.aes256_decrypt_compact (AesFs32.rkFn (AesFs32.aes256_key_schedule_compact (packBE 32 kb)))) x = AesFs64.single (AesFs64.aes256_decrypt (AesFs64.rkFn (AesFs64.aes256_key_schedule (packBE 32 kb)))) x :=
+  _root_.BC.AesSoft.soft_backends_agree_256 kb h x
+end BC.AesSoft
+
+namespace BC.AesNi
+open BC BC.X86 BC.Spec.Aes
+theorem C03.encrypt128_bytes (key : Bytes) (h : key.length = 16) (b : BitVec 128) :
+    encrypt128 (packBE 16 key) b = Spec.Aes.encrypt key b :=
+  _root_.BC.AesNi.encrypt128_bytes key h b
+end BC.AesNi
+
+namespace BC.AesNi
+open BC BC.X86 BC.Spec.Aes
+theorem C03.decrypt128_bytes (key : Bytes) (h : key.length = 16) (b : BitVec 128) :
+    decrypt128 (packBE 16 key) b = Spec.Aes.decrypt key b :=
+  _root_.BC.AesNi.decrypt128_bytes key h b
+end BC.AesNi
+
+namespace BC.AesNi
+open BC BC.X86 BC.Spec.Aes
+theorem C03.encrypt192_bytes (key : Bytes) (h : key.length = 24) (b : BitVec 128) :
+    encrypt192 (packBE 24 key) b = Spec.Aes.encrypt key b :=
+  _root_.BC.AesNi.encrypt192_bytes key h b
+end BC.AesNi
+
+namespace BC.AesNi
+open BC BC.X86 BC.Spec.Aes
+theorem C03.decrypt192_bytes (key : Bytes) (h : key.length = 24) (b : BitVec 128) :
+    decrypt192 (packBE 24 key) b = Spec.Aes.decrypt key b :=
+  _root_.BC.AesNi.decrypt192_bytes key h b
+end BC.AesNi
+
+namespace BC.AesNi
+open BC BC.X86 BC.Spec.Aes
+theorem C03.encrypt256_bytes (key : Bytes) (h : key.length = 32) (b : BitVec 128) :
+    encrypt256 (packBE 32 key) b = Spec.Aes.encrypt key b :=
+  _root_.BC.AesNi.encrypt256_bytes key h b
+end BC.AesNi
+
+namespace BC.AesNi
+open BC BC.X86 BC.Spec.Aes
+theorem C03.decrypt256_bytes (key : Bytes) (h : key.length = 32) (b : BitVec 128) :
+    decrypt256 (packBE 32 key) b = Spec.Aes.decrypt key b :=
+  _root_.BC.AesNi.decrypt256_bytes key h b
+end BC.AesNi
+
+namespace BC.Serpent
+theorem C03.unroll31_eq_loop31 (body : Words → Nat → Words) (b : Words) : unroll31 body b = loop31 body b :=
+  _root_.BC.Serpent.unroll31_eq_loop31 body b
+end BC.Serpent
+
+namespace BC.Serpent
+theorem C03.encrypt_eq_encryptLoop (rk : RoundKeys) (blk : BitVec 128) : encrypt rk blk = encryptLoop rk blk :=
+  _root_.BC.Serpent.encrypt_eq_encryptLoop rk blk
+end BC.Serpent
+
+namespace BC.Serpent
+theorem C03.decrypt_eq_decryptLoop (rk : RoundKeys) (blk : BitVec 128) : decrypt rk blk = decryptLoop rk blk :=
+  _root_.BC.Serpent.decrypt_eq_decryptLoop rk blk
+end BC.Serpent
